@@ -78,6 +78,7 @@ class C15(Check):
         self.packet_base = self.m["packet_base"].packet_base
         self.ethernet = self.m["ethernet"].ethernet
         self.pkgdir = os.path.join(common.REPO, "pox", "lib")
+        self.pktdir = os.path.join(common.REPO, "pox", "lib", "packet")
         of = importlib.import_module("pox.openflow.libopenflow_01")
         self.ofp_packet_in = of.ofp_packet_in
         self.PacketIn = importlib.import_module("pox.openflow").PacketIn
@@ -111,7 +112,7 @@ class C15(Check):
         tb = e.__traceback__; loc = None; mods = collections.Counter()
         while tb is not None:
             fn = tb.tb_frame.f_code.co_filename
-            if fn.startswith(self.pkgdir):
+            if fn.startswith(self.pktdir):                      # innermost function of the packet library (not addresses.py / util.py)
                 mod = os.path.splitext(os.path.basename(fn))[0]
                 loc = mod + "." + tb.tb_frame.f_code.co_qualname
                 mods[mod] += 1
@@ -356,8 +357,23 @@ class C15(Check):
         return out
 
     # ------------------------------------------------------------------ generators
+    WITNESSES = [   # the witnesses of the `…_defect` theorems of Properties/C15.lean (same bytes), then minimised past failures
+        ("lldp_d14_defect", "0180c200000e02a1b2c3d4e588cc02070402a1b2c3d4e5040202370602"),
+        ("lldp_tlv_malformed_defect", "0180c200000e02a1b2c3d4e588cc02070402a1b2c3d4e50402023706030078000000"),
+        ("llc_print_defect", "66778899aabb02a1b2c3d4e50026"),
+        ("lldp_print_defect", "0180c200000e02a1b2c3d4e588cc02080402a1b2c3d4e50004020237060200780000"),
+        ("tcp_repack_defect", "66778899aabb02a1b2c3d4e50800450000521234400040065bc50a010203c0a8000103e8005001020304fffefdfc6018200000000000632a00000000000000000000000000000000000000000000000000000000000000000000000000000000"),
+        ("eap-no-type", "66778899aabb02a1b2c3d4e5888e0100000401050004"),
+        ("eap-unknown-type", "66778899aabb02a1b2c3d4e5888e010000050105000550"),
+    ]
+
     def corpus(self):
         cases = []
+        for name, hx in self.WITNESSES:
+            if hx is not None: cases.append(frame_case(bytes.fromhex(hx), "witness " + name))
+        # nesting_defect: Ethernet + n 802.1Q tags each announcing another tag (14 + 4n bytes), n at and around CPython's limit
+        for n in (3, 100, 340, 374):
+            cases.append(frame_case(bytes(12) + b"\x81\x00" + b"\x00\x01\x81\x00" * n, "witness nesting_defect %d" % n))
         for name, f in self._frames:
             cases.append(frame_case(f, "valid " + name))
         for name, f in self._frames:
@@ -473,8 +489,33 @@ class C15(Check):
     def extra_evidence(self):
         return {"technique": self.technique, "level_text": self.level_text, "level_note": self.level_note, "design_ref": self.design_ref}
 
-    level_text = ""
-    level_note = ""
-
+C15.theorems = ["Pox.C15." + t for t in (
+    "parse_total_partial", "nesting_defect", "progress_recorded", "repack_total_partial", "print_total_partial", "refines_c14",
+    "lldp_d14_defect", "lldp_tlv_malformed_defect", "llc_print_defect", "lldp_print_defect", "tcp_repack_defect")]
+C15.level_text = (
+    "Proved in Lean for EVERY byte string offered to ethernet(raw=...) (= PacketIn.parsed), for a model in which every struct.unpack of a wrong-size slice, "
+    "index past the end, ord() of an empty slice, deliberate raise, assert and %-format of None is an error: the repaired code never raises on the path "
+    "Ethernet -> 802.1Q (nested) / LLC-SNAP -> ARP / IPv4(+options) -> ICMP echo/unreachable/time-exceeded (quoted datagram, nested) / TCP (+option parser) / UDP "
+    "and LLDP with all TLV classes, given len/4+1 nested constructor activations (parse_total_partial); the result covers the whole input and tiles it "
+    "(header, then exactly the bytes handed on or kept raw; only IPv4/UDP cut, as the code does) (progress_recorded); pack() of any result without a foreign layer "
+    "is defined (repack_total_partial), str()/dump() is defined (print_total_partial); whenever it returns, the total C14 parser returns the same chain (refines_c14). "
+    "Also proved: for every nesting budget d a frame of 14+4d bytes raises RecursionError (nesting_defect, not repaired), and five concrete defects of HEAD "
+    "(D14, TLV bodies, llc/lldp printing, TCP option overrunning the header) with their repaired counterparts. Every run re-checks the model against the real "
+    "classes on every truncation and single-byte corruption of 87 valid frames covering all 21 modules and evaluates the 'nothing raises, progress recorded' oracle.")
+C15.level_note = (
+    "The theorems are about the hand-written model Model/PacketParse.lean of the code AFTER the proposed repairs D14, C15-1..C15-4 (not yet committed: on /repo the check "
+    "reports the violations); they are tied to the code only by the differential run. PARTIAL: layers handed to ipv6, icmpv6 (incl. NDP), dhcp, dns, rip, vxlan, igmp, "
+    "gre, mpls, eapol/eap and the MPTCP TCP option end the model's chain as `foreign`: for those 11 parser modules NOTHING is proved, only the oracle 'no exception from "
+    "parse / pack / str / dump / PacketIn.parsed' is evaluated on the exhaustive mutation stream (hence parse_total_partial etc.). Python's recursion limit is modelled "
+    "abstractly as a nesting budget (CPython spends 2-3 frames per nested header). The print model contains only the two raising operations found in the modelled "
+    "classes' __str__ methods. Exponential time of pack() on nested UDP encapsulation (udp.checksum packs the payload again) is outside the property (no exception).")
+C15.trusted_base = [
+    "model Model/PacketParse.lean (reusing the header records, struct layouts, hdr() and TCP option models of Model/PacketHdr.lean, C14) hand-written from pox/lib/packet; tied by this correspondence run",
+    "harness/c15_frames.py: hand-written wire builders for the corpus of valid frames; harness/c15.py: mutation engines, canonicalisation of the object chain, the oracle"]
+C15.assumptions = [
+    "struct.unpack raises exactly when the slice size differs from the format size; slicing never raises; bytes indexing raises IndexError past the end",
+    "the interpreter allows len(frame)/4 + 1 nested constructor activations (about 3 Python frames each) below the handler that touches event.parsed",
+    "logging calls (self.msg / lg.debug) do not raise",
+    "little-endian host (checksum model, as in C14)"]
 
 CHECK = C15
